@@ -1180,6 +1180,11 @@ def head_flags_of(data, strict):
             i += 1
         if data[i:i + 5] == b"HEAD ":
             und = len(flags)
+    if stop == "other":
+        # the reference cannot frame the stream beyond this point (e.g. a request line with extra spaces, which
+        # lighttpd reads leniently when header-strict is off): it does not know which of the following requests
+        # are HEAD, so the response parser may not assume that a later bodiless response is malformed
+        und = -1 - len(flags)
     return flags, und
 
 
@@ -1189,8 +1194,12 @@ def observe(data, closed, head_flags):
     rs, err = None, None
     # a rejection issued before the method was read (431, 400 on the request line) carries a body even if the
     # request was HEAD: such a response is the last one, so try un-flagging one HEAD at a time
-    cands = [flags + [False]] + ([flags + [True]] if und is not None else []) + \
-        [flags[:i] + [False] * (len(flags) - i + 1) for i, f in enumerate(flags) if f]
+    if und is not None and und < 0:
+        import itertools
+        cands = [flags + list(t) for k in range(1, 5) for t in itertools.product([False, True], repeat=k)]
+    else:
+        cands = [flags + [False]] + ([flags + [True]] if und is not None else []) + \
+            [flags[:i] + [False] * (len(flags) - i + 1) for i, f in enumerate(flags) if f]
     for fl in cands:
         try:
             rs = e2e.parse_responses(data, head_for=fl, closed=closed)
